@@ -24,7 +24,10 @@ _inv = ["NoViolation", "Refines"]
 
 
 def _mc(name, consts, thorough=None, emit=True, **kw):
-    return dict(name=name, module="MC_Nft", constants=dict(consts, Emit=emit), thorough=thorough or {},
+    th = dict(thorough or {})
+    if th and emit:
+        th["EmitMod"] = 8
+    return dict(name=name, module="MC_Nft", constants=dict(consts, Emit=emit, EmitMod=1), thorough=th,
                 invariants=kw.pop("invariants", _inv), constraints=[], **kw)
 
 
